@@ -229,6 +229,20 @@ let rec strs_eqb a b =
      | [] -> false
      | y :: b' -> (&&) (str_eqb x y) (strs_eqb a' b'))
 
+(** val insert_sorted_set : str -> str list -> str list **)
+
+let rec insert_sorted_set x l = match l with
+| [] -> x :: []
+| y :: r ->
+  if str_eqb y x
+  then l
+  else if str_ltb y x then y :: (insert_sorted_set x r) else x :: l
+
+(** val sort_strs : str list -> str list **)
+
+let sort_strs l =
+  fold_right insert_sorted_set [] l
+
 type case_result = { cr_relevant : bool; cr_roundtrip : bool;
                      cr_same_status : bool; cr_same_out : bool;
                      cr_same_diag : bool; cr_model_out : jv;
@@ -287,16 +301,17 @@ let run_case c =
                     false, true, true, true, false)), EmptyString))))))))))))
                     c)
            else true); cr_same_diag =
-          (strs_eqb s.diags
-            (jstrs
-              (jfield_d (String ((Ascii (false, false, true, false, false,
-                true, true, false)), (String ((Ascii (true, false, false,
-                true, false, true, true, false)), (String ((Ascii (true,
-                false, false, false, false, true, true, false)), (String
-                ((Ascii (true, true, true, false, false, true, true, false)),
-                (String ((Ascii (true, true, false, false, true, true, true,
-                false)), EmptyString)))))))))) c))); cr_model_out = mo;
-          cr_model_diags = s.diags; cr_extra = [] }
+          (strs_eqb (sort_strs s.diags)
+            (sort_strs
+              (jstrs
+                (jfield_d (String ((Ascii (false, false, true, false, false,
+                  true, true, false)), (String ((Ascii (true, false, false,
+                  true, false, true, true, false)), (String ((Ascii (true,
+                  false, false, false, false, true, true, false)), (String
+                  ((Ascii (true, true, true, false, false, true, true,
+                  false)), (String ((Ascii (true, true, false, false, true,
+                  true, true, false)), EmptyString)))))))))) c))));
+          cr_model_out = mo; cr_model_diags = s.diags; cr_extra = [] }
      else { cr_relevant = false; cr_roundtrip = true; cr_same_status = true;
             cr_same_out = true; cr_same_diag = true; cr_model_out = JNull;
             cr_model_diags = []; cr_extra = [] }
